@@ -54,18 +54,19 @@ pub fn main() {
     let mut out = vec![];
     for g in groups {
         let r = match g {
-            "e2e" | "e2e_filter" | "e2e_fn" | "e2e_cmp" => checks::group_e2e_named(g, tier, seed, only),
+            "e2e" | "e2e_filter" | "e2e_fn" | "e2e_cmp" | "e2e_ext" => checks::group_e2e_named(g, tier, seed, only),
             "requery" => checks::group_requery(tier, seed, only),
             "purity" => checks::group_purity(tier, seed, only),
             "helpers" => helpers_check::group_helpers(tier, seed, only),
             "purity_x" => checks::group_purity_x(tier, seed, only),
-            "text_arith" | "text_filter" | "text_plain" | "text_union" | "text_cmp" | "text_e2e" => checks::group_text(g, tier, seed, only),
+            "text_arith" | "text_filter" | "text_plain" | "text_union" | "text_cmp" | "text_e2e" | "text_ext" => checks::group_text(g, tier, seed, only),
             "descendant" => checks::group_descendant(tier, seed, only),
             "selectors" => checks::group_selectors(tier, seed, only),
             "pointer_text" => checks::group_pointer_text(tier, seed, only),
             "name_lookup" => checks::group_name_lookup(tier, seed, only),
             "regex" => checks::group_regex(tier, seed, only),
             "custom" => checks::group_custom(tier, seed, only),
+            "ext_direct" => checks::group_ext_direct(tier, seed, only),
             "cmp_struct" => checks::group_cmp_struct(tier, seed, only),
             "arith" => checks::group_arith(tier, seed, only),
             _ => { eprintln!("unknown group {}", g); std::process::exit(2); }
